@@ -8,6 +8,13 @@ ROOT=$(pwd)
 export GOFLAGS=-mod=mod GOPROXY=off
 unset GOTOOLCHAIN GOSUMDB
 mkdir -p build evidence replays
+# Go harness (built against /repo's working tree with the verif tag)
+cp /repo/go.sum "$ROOT/harness/go.sum" 2>/dev/null || true
+(cd "$ROOT/harness" && timeout 900 go build -tags verif -o "$ROOT/build/vh" .) >"$ROOT/build/go_build.log" 2>&1 || { tail -30 "$ROOT/build/go_build.log"; exit 1; }
+# K3: regenerate the models that are derived from /repo's current source text
+mkdir -p "$ROOT/coq/Gen" "$ROOT/build/gen"
+"$ROOT/build/vh" scan -out "$ROOT/build/gen/scan" "$ROOT/build/gen/Facts_gen.v" >/dev/null || exit 1
+cmp -s "$ROOT/build/gen/Facts_gen.v" "$ROOT/coq/Gen/Facts_gen.v" || cp "$ROOT/build/gen/Facts_gen.v" "$ROOT/coq/Gen/Facts_gen.v"
 cd "$ROOT/coq"
 if [ ! -f Makefile ] || [ _CoqProject -nt Makefile ]; then
   coq_makefile -f _CoqProject -o Makefile >/dev/null
